@@ -27,7 +27,7 @@ package peers
 //@   requires forall i int :: 0 <= i && i < len(p.peersList) ==> has(p.statuses, p.peersList[i])
 //@   modifies p
 //@   ensures result1 ==> has(p.statuses, result0) && p.statuses[result0] == active
-//@   ensures p.activeCount == old(p.activeCount) && p.statuses == old(p.statuses)
+//@   ensures p.activeCount == old(p.activeCount) && p.statuses == old(p.statuses) && p.peersList == old(p.peersList)
 //@   ensures !$PoolLocked && !$QueueLocked
 
 //@ func (*timedQueue).push
@@ -104,3 +104,64 @@ package peers
 //@   modifies p.statuses
 //@   ensures p.activeCount == countEq(p.statuses, active)
 //@   loop 1: invariant p.activeCount == countEq(p.statuses, active) && p.statuses == old(p.statuses) && $PoolLocked && !$QueueLocked
+
+// ---------------------------------------------------------------------------------------------
+// C17: the manager hands out a peer together with a DoneFunc that remembers which pool the peer came
+// from (the result - cool-down, blacklist, ... - is applied to that pool). The tag must name the pool
+// the peer was actually taken from: a peer taken from the discovered-nodes pool and tagged "shrexsub"
+// would be put on cool-down in a pool that does not hold it, and be offered again at once.
+// $Sel<i>: case i of the select was taken (0: the datahash pool's channel, 1: the nodes pool's channel).
+//@ pure func poolListed(p *pool) bool = forall i int :: 0 <= i && i < len(p.peersList) ==> has(p.statuses, p.peersList[i])
+//@ pure func activeIn(p *pool, id peer.ID) bool = has(p.statuses, id) && p.statuses[id] == active
+
+// (pools handed out by the manager satisfy the pool invariant that every pool operation preserves)
+//@ func (*Manager).validatedPool
+//@   property C17
+//@   trusted
+//@   ensures result != nil && result.pool != nil && result.pool != m.nodes && poolListed(result.pool)
+//@   ensures m.nodes == old(m.nodes) && poolListed(m.nodes)
+
+//@ func (*Manager).removeIfUnreachable
+//@   property C17
+//@   trusted
+//@   params m sp peerID
+//@   modifies sp.pool
+//@   ensures !result ==> deref(sp.pool) == old(deref(sp.pool)) && (forall id peer.ID :: activeIn(sp.pool, id) == old(activeIn(sp.pool, id)))
+
+// (read-only pool operations: they take the pool lock and write nothing)
+//@ func (*pool).len
+//@   property C17
+//@   trusted
+//@ func (*pool).has
+//@   property C17
+//@   trusted
+//@ func (*pool).next
+//@   property C17
+//@   trusted
+
+//@ func (*Manager).Peer
+//@   property C17
+//@   noframe
+//@   havoc $Sent
+//@   requires m != nil && m.nodes != nil
+//@   requires poolListed(m.nodes)
+//@   requires !$PoolLocked && !$QueueLocked
+//@   callpre Manager).newPeer: $Sel0 ==> $arg4 == sourceShrexSub
+//@   callpre Manager).newPeer: $Sel1 ==> $arg4 == sourceDiscoveredNodes
+//@   callpre Manager).newPeer: !$Sel0 && !$Sel1 && $arg4 == sourceShrexSub ==> activeIn(p.pool, $arg3)
+//@   callpre Manager).newPeer: !$Sel0 && !$Sel1 && $arg4 == sourceDiscoveredNodes ==> activeIn(m.nodes, $arg3)
+
+// The DoneFunc applies a cool-down to the pool its tag names: the discovered-nodes pool for
+// "discovered_nodes", otherwise the pool of the data hash; the peer it cools down is the one it was made for.
+//@ pure func poolInv(p *pool) bool = p.activeCount == countEq(p.statuses, active) && p.cooldown != nil
+// (pools registered in the manager satisfy the pool invariant; the data-hash pools are distinct from the nodes pool)
+//@ func (*Manager).getPool
+//@   property C17
+//@   trusted
+//@   ensures result != nil ==> result.pool != nil && result.pool != m.nodes && poolInv(result.pool)
+
+//@ func (*Manager).doneFunc$1
+//@   property C17
+//@   noframe
+//@   requires m != nil && m.nodes != nil && poolInv(m.nodes) && !$PoolLocked && !$QueueLocked
+//@   callpre pool).putOnCooldown: $arg1 == peerID && ((source == sourceDiscoveredNodes) <==> ($arg0 == m.nodes))
